@@ -1,5 +1,10 @@
 package vsched
 
+import (
+	"errors"
+	"net"
+)
+
 func Aborting() bool { return S == nil || S.aborting }
 
 // Block parks the current thread until cond holds.
@@ -16,6 +21,17 @@ func BlockObj(kind string, obj interface{}, cond func() bool) {
 		return
 	}
 	S.point(&Op{Kind: kind, Obj: obj, Enabled: cond})
+}
+
+// Dial is what the instrumented library calls instead of dialer.Dial(network, addr): the harness
+// decides which (in-memory) connection a dial yields.
+var DialFn func(dialer interface{}, network, addr string) (net.Conn, error)
+
+func Dial(dialer interface{}, network, addr string) (net.Conn, error) {
+	if DialFn == nil {
+		return nil, errors.New("vsched: no dial hook installed")
+	}
+	return DialFn(dialer, network, addr)
 }
 
 var resetFns []func()
